@@ -529,7 +529,7 @@ func RIgnParen(c *core.Ctx) {
 // ---------------------------------------------------------------------------
 
 func RDigitAcc(c *core.Ctx) {
-	c.Rule("R-DIGITACC", "every loop of the module that accumulates a decimal number (`n = n*10 + d` / `n *= 10`) compares the accumulator with a constant inside the loop before the multiplication can overflow (the max/10 idiom of scanDecimal)", 3)
+	c.Rule("R-DIGITACC", "every loop of the module that accumulates a decimal number (`n = n*10 + d` / `n *= 10`) compares the accumulator with a bound (an ordering comparison) inside the loop, before the multiplication can overflow (the max/10 idiom of scanDecimal)", 3)
 	p := c.P
 	n := 0
 	for _, fn := range p.ModuleFuncs() {
@@ -556,18 +556,9 @@ func RDigitAcc(c *core.Ctx) {
 				for _, r := range core.Referrers(phi) {
 					if bin, ok := r.(*ssa.BinOp); ok && onCycle(bin.Block()) {
 						switch bin.Op {
-						case token.GTR, token.GEQ, token.LSS, token.LEQ, token.EQL:
-							if _, isC := core.IntConst(bin.Y); isC {
-								guarded = true
-							}
-							if _, isC := core.IntConst(bin.X); isC {
-								guarded = true
-							}
-							if g, ok := bin.Y.(*ssa.UnOp); ok {
-								if _, isG := g.X.(*ssa.Global); isG {
-									guarded = true
-								}
-							}
+						case token.GTR, token.GEQ, token.LSS, token.LEQ:
+							// an ordering comparison of the accumulator inside the loop: a bound (constant, max/10 variable, table size)
+							guarded = true
 						}
 					}
 				}
